@@ -572,6 +572,14 @@ theorem safe_exec_succ (n : Nat) (ih : AllSafe n) (i : Instr) : Safe (exec (n+1)
   | branch d o => simp only [VM.exec]; safe_ih ih
   | removeScope => simp only [VM.exec]; safe_ih ih
   | prepareCall x k => simp only [VM.exec]; safe_ih ih
+  | tailGuard x k =>
+    simp only [VM.exec]
+    apply safe_get_bind; intro s
+    split
+    · split
+      · exact to_safe safe_incPc s
+      · set_same
+    · set_same
   | loopStart l => simp only [VM.exec]; safe_ih ih
   | label => simp only [VM.exec]; safe_ih ih
   | pushMark l => simp only [VM.exec]; safe_ih ih
